@@ -9,13 +9,7 @@ use rosomaxa::prelude::Float;
 use std::sync::Arc;
 
 pub fn costs(fixed: Float, per_distance: Float, per_time: Float) -> Costs {
-    Costs {
-        fixed,
-        per_distance,
-        per_driving_time: per_time,
-        per_waiting_time: per_time,
-        per_service_time: per_time,
-    }
+    Costs { fixed, per_distance, per_driving_time: per_time, per_waiting_time: per_time, per_service_time: per_time }
 }
 
 /// Integer-valued f64 in [0, 255].
@@ -47,7 +41,8 @@ pub fn actor_with(
     end_loc: Option<Location>,
     shift_end: Float,
 ) -> Arc<Actor> {
-    let start = Some(VehiclePlace { location: start_loc, time: TimeInterval { earliest: Some(shift_start), latest: None } });
+    let start =
+        Some(VehiclePlace { location: start_loc, time: TimeInterval { earliest: Some(shift_start), latest: None } });
     let end = end_loc.map(|location| VehiclePlace {
         location,
         time: TimeInterval { earliest: None, latest: if shift_end == Float::MAX { None } else { Some(shift_end) } },
@@ -64,7 +59,13 @@ pub fn single_with(dimens: Dimensions) -> Arc<Single> {
     Arc::new(Single { places: vec![], dimens })
 }
 
-pub fn job_activity(single: Arc<Single>, location: Location, duration: Float, tw_start: Float, tw_end: Float) -> Activity {
+pub fn job_activity(
+    single: Arc<Single>,
+    location: Location,
+    duration: Float,
+    tw_start: Float,
+    tw_end: Float,
+) -> Activity {
     Activity {
         place: APlace { idx: 0, location, duration, time: TimeWindow { start: tw_start, end: tw_end } },
         schedule: Schedule { arrival: 0., departure: 0. },
